@@ -142,7 +142,6 @@ type Store[K comparable, V any] struct {
 	ctx               context.Context
 	cancel            context.CancelFunc
 	maintenanceTicker *time.Ticker
-	waitChan          chan bool
 }
 
 type StoreOptions[K comparable, V any] struct {
@@ -202,7 +201,6 @@ func NewStore[K comparable, V any](options *StoreOptions[K, V]) *Store[K, V] {
 		cost:            costfn,
 		secondaryCache:  options.SecondaryCache,
 		probability:     options.Probability,
-		waitChan:        make(chan bool),
 	}
 	if options.EntryPool {
 		s.entryPool = &sync.Pool{New: func() any { return &Entry[K, V]{} }}
@@ -794,25 +792,20 @@ func (s *Store[K, V]) sinkWrite(item WriteBufItem[K, V]) {
 }
 
 func (s *Store[K, V]) drainWrite() {
-	// number of Wait markers in this batch: every one of them has a caller
-	// blocked on waitChan
-	var wait int
+	// Wait markers in this batch: every one of them carries the channel its own
+	// caller is blocked on, so a caller is only released by its own marker
+	var waiters []chan struct{}
 	for _, item := range s.writeBuffer {
 		if item.code == WAIT {
-			wait++
+			waiters = append(waiters, item.done)
 			continue
 		}
 		s.sinkWrite(item)
 	}
 
 	s.writeBuffer = s.writeBuffer[:0]
-	for ; wait > 0; wait-- {
-		select {
-		case s.waitChan <- true:
-		case <-s.ctx.Done():
-			// the waiters leave through the same signal
-			return
-		}
+	for _, done := range waiters {
+		close(done)
 	}
 }
 
@@ -1079,13 +1072,14 @@ func (s *Store[K, V]) processSecondary() {
 func (s *Store[K, V]) Wait() {
 	// after Close the maintenance goroutine is gone: there is nothing to wait for
 	// and nobody to answer the marker
+	done := make(chan struct{})
 	select {
-	case s.writeChan <- WriteBufItem[K, V]{code: WAIT}:
+	case s.writeChan <- WriteBufItem[K, V]{code: WAIT, done: done}:
 	case <-s.ctx.Done():
 		return
 	}
 	select {
-	case <-s.waitChan:
+	case <-done:
 	case <-s.ctx.Done():
 	}
 }
